@@ -202,7 +202,8 @@ def oracle_table(case):
         os.makedirs(WORK_DIR, exist_ok=True)
         pd_ = os.path.join(WORK_DIR, f"c15_{os.getpid()}_dialect.cif")
         with open(pd_, "w") as f:
-            f.write(atomtab.emit_cif(atoms, case.get("null", "?"), dialect={"drop": sorted(drop), "order": dia.get("order")}))
+            f.write(atomtab.emit_cif(atoms, case.get("null", "?"), dialect={"drop": sorted(drop), "order": dia.get("order"),
+                                                                            "label_seq": dia.get("label_seq") if dia.get("identity") != "label" else None}))
         paths["cif-dialect"] = pd_
         wants["cif-dialect"] = wd
     try:
@@ -304,6 +305,8 @@ def classify(case):
         labs.append("chi-compared")
     if case.get("dialect"):
         labs.append("cif-dialect-" + case["dialect"].get("identity", "both"))
+        if case["dialect"].get("label_seq") == "author" and case["dialect"].get("identity") != "label":
+            labs.append("label_seq_id-repeats-author-number")
     nt = bool(set(labs) & {"chains>=2", "icode", "negative-number"}) and info["connected"] >= 1 and info["broken"] >= 1
     return nt, labs
 
@@ -342,7 +345,8 @@ def st_cases():
                                               "pdbx_formal_charge", "auth_comp_id", "auth_atom_id", "pdbx_PDB_ins_code", "pdbx_PDB_model_num"]),
                              max_size=5, unique=True),
             "order": st.one_of(st.none(), st.integers(0, 10 ** 6)),
-            "identity": st.sampled_from(["both", "both", "auth", "label"])})))
+            "identity": st.sampled_from(["both", "both", "auth", "label"]),
+            "label_seq": st.sampled_from([None, None, "author"])})))
         return {"atoms": atoms, "null": draw(st.sampled_from(["?", "."])), "dialect": dialect}
 
     return build()
